@@ -239,7 +239,9 @@ def gen_history(rng, nsteps, forced_bad=None):
                 steps.append({"op": op, "dim": d, "i": i, "label": newl[i], "via": via})
             else:
                 newl = fresh_labels(rng, k, len(l), sim)
-                if rng.random() < 0.2:
+                if rng.random() < 0.2 and not (k == 'i' and any(x > 2 ** 63 - 1 for x in l)):
+                    # (not on the unsigned axes beyond 2**63 that also hold ordinary integers: handed over as a plain list, NumPy
+                    # itself turns such a mixture into float64 before the library sees it)
                     newl = list(l)          # the axis re-assigned with the labels it already has (an update repeated, or made to attach metadata)
                 st_ = {"op": op, "dim": d, "labels": newl, "kind": k, "form": rng.choice(['list', 'array', 'dict', 'callable']), "by_pos": rng.random() < 0.5}
                 ks = [q for q in keys_now if d in sim.vars[q]]
